@@ -858,6 +858,24 @@ def replay(path):
     return K.EXIT_OK
 
 
+def _corpus_task(task):
+    """One corpus scenario on the current tree: ("violation", clause, detail) | ("ok",) | ("unusable", why)."""
+    path, rundir = task
+    try:
+        doc = json.load(open(path))
+        if doc.get("kind") == "extend":
+            v = _replay_extend_task((doc["case"], rundir))
+        else:
+            v, _i = _replay_task((doc["world"], doc["ops"], rundir))
+    except K.HarnessError as e:
+        return ("unusable", str(e)[:200])
+    except (KeyError, TypeError, ValueError, AssertionError) as e:
+        return ("unusable", f"{type(e).__name__}: {e}"[:200])
+    if v is not None and v[0] == doc["clause"]:
+        return ("violation", v[0], str(v[1]))
+    return ("ok",)
+
+
 # --------------------------------------------------------------------------
 # batch
 # --------------------------------------------------------------------------
@@ -963,12 +981,26 @@ def main(argv):
                                                              watchdog=3000, force_pool=True)[0]
     for ln in out_lines + known_lines:
         print(ln)
+    corpus = K.corpus_files(PROP)
+    corpus_out = K.pool_map(_corpus_task, [(f, os.path.join(scratch, f"corpus{n}")) for n, f in enumerate(corpus)],
+                            watchdog=600) if corpus else []
+    corpus_hits = 0
+    for f, res in zip(corpus, corpus_out):
+        if res and res[0] == "violation":
+            corpus_hits += 1
+            print(f"violated clause: {res[1]} (corpus scenario {os.path.basename(f)}): {res[2][:300]}")
+            print(f"VIOLATION property={PROP} replay={f}")
+            exit_code = K.EXIT_VIOLATION
+    corpus_unusable = [os.path.basename(f) for f, res in zip(corpus, corpus_out) if res and res[0] == "unusable"]
 
     wall = timer.s()
     lengths = sorted(tot["lengths"]) or [0]
     samples = [s for p in done for s in p["samples"]][:3] or [{"note": "no sample"}]
     coverage = {
         "evaluations": tot["runs"],
+        "corpus_scenarios_replayed": len(corpus),
+        "corpus_scenarios_reproduced": corpus_hits,
+        "corpus_scenarios_unusable": corpus_unusable,
         "distinct_nontrivial": len(tot["states"]),
         "rule": "one evaluation = one simulated run (a seeded edit history on 1-3 live networks, or one 'naunet extend' "
                 "pipeline); every event is followed by the full invariant check on every live network. "
@@ -1000,7 +1032,7 @@ def main(argv):
             "stub": ["tqdm (identity)", "open() in naunet.network (fault wrapper over real files)", "logging/stdout (sink)"],
         },
     }
-    K.write_evidence(PROP, tier, seed, "exploration", coverage, wall, len(replays), [
+    K.write_evidence(PROP, tier, seed, "exploration", coverage, wall, len(replays) + corpus_hits, [
         "species identity is the simulator's own (composition, charge, phase), mapped from spellings, never naunet's __eq__",
         "removal by instance follows the documented equality (same reactant/product multisets, window, type or unknown type) and affects held reactions only",
         "after an allowed-list change the held reactions are compared as a multiset (the property does not fix their order)",
